@@ -95,6 +95,21 @@ def run(case, prop):
                     tag = body.split('.')[0]
                     o = expand(key, copy.deepcopy(c), copy.deepcopy(gc))
                     if ('<' + tag) not in o.lower(): viol.append('expand-layer| expand(%r) = %r does not use the effective snippet %r' % (key, o, body))
+            if kind == 'sn' and ty == 'stylesheet' and key.isalpha():
+                body = got[case['probes'].index((kind, key))]
+                if isinstance(body, str) and body.startswith('planted-'):
+                    o = expand(key, copy.deepcopy(c), copy.deepcopy(gc))
+                    if body not in o: viol.append('expand-layer| expand(%r, %r, %r) = %r does not use the effective snippet %r' % (key, c, gc, o, body))
+            if kind == 'vr' and ty == 'markup':
+                val = got[case['probes'].index((kind, key))]
+                if isinstance(val, str) and val:
+                    # the effective variable, referenced directly and from inside a snippet body, under a call config whose own
+                    # `variables` dictionary exists but need not mention the key
+                    o = expand('p[title=${%s}]' % key, copy.deepcopy(c), copy.deepcopy(gc))
+                    if val not in o: viol.append('expand-variable| expand(p[title=${%s}], %r, %r) = %r does not use the effective value %r' % (key, c, gc, o, val))
+                    c2 = copy.deepcopy(c); c2.setdefault('variables', {}); c2.setdefault('snippets', {})['probevar'] = 'p[title=${%s}]' % key
+                    o = expand('probevar', c2, copy.deepcopy(gc))
+                    if val not in o: viol.append('expand-variable| expand(probevar) with snippet probevar = p[title=${%s}], config %r, global %r gives %r: the snippet body does not see the effective value %r' % (key, c2, gc, o, val))
         expand('a', c, gc)
     except RecursionError: raise
     except Exception as e:
